@@ -1,7 +1,7 @@
 package gofakes3
 
 import (
-	"fmt"
+	"errors"
 	"io"
 )
 
@@ -62,14 +62,10 @@ func (r *chunkedReader) Read(p []byte) (n int, err error) {
 				return n, err
 			}
 			// read next chunk header
-			chunkSize := 0
-			_, err = fmt.Fscanf(r.inner, "%x;", &chunkSize)
+			chunkSize, err := r.readChunkSize()
 			if err != nil {
 				// the body must end with a chunk of size 0, not just end
 				return n, unexpectedEOF(err)
-			}
-			if chunkSize < 0 {
-				return n, errChunkFraming
 			}
 			if err := r.expect(chunkSignatureField); err != nil {
 				return n, err
@@ -100,6 +96,35 @@ func (r *chunkedReader) Read(p []byte) (n int, err error) {
 		}
 	}
 	return n, nil
+}
+
+// readChunkSize reads "<hex digits>;". A number parser such as fmt.Fscanf
+// would also take a sign or leading blanks.
+func (r *chunkedReader) readChunkSize() (int, error) {
+	size, digits := 0, 0
+	var b [1]byte
+	for {
+		if _, err := io.ReadFull(r.inner, b[:]); err != nil {
+			return 0, err
+		}
+		var v int
+		switch c := b[0]; {
+		case c == ';' && digits > 0:
+			return size, nil
+		case c >= '0' && c <= '9':
+			v = int(c - '0')
+		case c >= 'a' && c <= 'f':
+			v = int(c-'a') + 10
+		case c >= 'A' && c <= 'F':
+			v = int(c-'A') + 10
+		default:
+			return 0, errors.New("expected integer")
+		}
+		if digits++; digits > 15 {
+			return 0, errChunkFraming
+		}
+		size = size<<4 | v
+	}
 }
 
 // expect reads len(literal) bytes, which must be literal.
